@@ -752,6 +752,29 @@ M.contract('contracts.C11_settings:two_instructions',
            }, raises_only=())
 
 
+# --- which symbol table a step sees (C08: "visible to exactly the instructions that follow its definition in execution
+# order" and, in an accepted case, "each reference evaluates to the defined value")
+# Two tables: the VALIDATION-time table -- filled by the validation of the symbol usages of all five phases, it holds
+# every symbol of an accepted case -- is what the validate-post-setup steps resolve against (an instruction of
+# [assert] may refer to a symbol that [before-assert] defines: it is validated before that definition executes);
+# the EXECUTION-time table starts as a copy of the predefined symbols and grows as definitions execute: it is what
+# the main steps see.  (After the seeded change C08-s4, which gave the execution-time table to the validation steps.)
+
+def validation_and_main_environment(executor, phase):
+    """Harness: the environment of the first validate-post-setup step and of the first main step of a phase"""
+    return next(executor._post_setup_validation_environments(phase)), next(executor._post_sds_main_environments(phase))
+
+
+M.contract('contracts.C11_settings:validation_and_main_environment', props=('C08',),
+           params=dict(executor=EXECUTOR, phase=Any_),
+           ensures={
+               'validation after setup resolves against the validation-time table (every symbol of the case)':
+                   lambda executor, result: result[0].symbols is executor._instruction_environment_pre_sds.symbols,
+               'main steps see the execution-time table (what has been defined so far)':
+                   lambda executor, result: result[1].symbols is executor._PartialExecutor__post_sds_symbol_table,
+           }, raises_only=())
+
+
 # --- the main-step executors: next() immediately before main, the shared settings objects as arguments
 
 class EnvironmentsI(Interface):
